@@ -30,7 +30,8 @@ Statement clauses and how they are read
     quiet_rx == N-1 ⇒ transition_to_recovery;  transition_to_recovery ⇒ quiet_rx ≥ N-1.
 
 All ensures are unbounded (1-induction).  The N-cycle covers of the 125 MHz / 250 MHz configurations are `reach=False`
-(satisfiable with the invariant); a scaled 200 kHz configuration (K=2, N=200) has them reached by BMC from reset.
+(satisfiable with the invariant); a scaled 200 kHz configuration (K=2, N=200) has the keepalive covers reached by BMC from
+reset in the quick tier and the 200-cycle-deep recovery cover in the thorough tier.
 """
 import z3
 from hwv.contract import B, zx, bvc
@@ -115,7 +116,8 @@ def idle_contract(c):
 
 
 # ------------------------------------------------------------------------------------------------ link timers
-def timers_contract(freq, reach):
+def timers_contract(freq, reach, deep=False):
+    """reach: the keepalive covers are reached by BMC; deep: the (N-cycle deep) recovery cover too."""
     def contract(c):
         d = LinkMaintenanceTimers(ss_clock_frequency=freq)
         ts = c.unit(d, {"i_enable": d.enable, "i_lc_rx": d.link_command_received, "i_pkt_rx": d.packet_received,
@@ -173,11 +175,12 @@ def timers_contract(freq, reach):
         # --- vacuity
         c.cover("keepalive", keepalive, reach=reach or K <= 100)
         c.cover("keepalive_repeats", z3.And(keepalive, B(fired)), reach=reach)
-        c.cover("recovery", z3.And(recovery, quiet_rx == N - 1), reach=reach)
+        c.cover("recovery", z3.And(recovery, quiet_rx == N - 1), reach=deep)
         c.cover("rx_event_restarts", z3.And(rx, enable, z3.UGT(quiet_rx, 2)))
         c.cover("tx_event_restarts", z3.And(tx, enable, z3.UGT(quiet_tx, 2)))
-        if reach:
+        if deep:
             c.cover_depth = N + 8
+            c.timeout_s = 900
     return contract
 
 
@@ -186,6 +189,7 @@ def contracts(tier):
     yield ("LinkMaintenanceTimers", "125MHz", timers_contract(125e6, False))
     yield ("LinkMaintenanceTimers", "scaled_200kHz", timers_contract(200e3, True))
     if tier == "thorough":
+        yield ("LinkMaintenanceTimers", "scaled_200kHz_deep_cover", timers_contract(200e3, True, deep=True))
         yield ("LinkMaintenanceTimers", "250MHz", timers_contract(250e6, False))
         yield ("LinkMaintenanceTimers", "62.5MHz", timers_contract(62.5e6, False))
         yield ("LinkMaintenanceTimers", "100MHz", timers_contract(100e6, False))
